@@ -374,6 +374,21 @@ func (w *VerifHSWorld) NewStage1(peer int, ridx uint32, t uint64) uint64 {
 	return uint64(len(w.stage1))
 }
 
+// AlterStage1Time is what an on-path attacker can do with a captured first message: in Noise IX the first message
+// carries the ephemeral key, the static key and the payload in the clear, so the peer-reported time in the payload
+// can be rewritten without knowing any key. Returns the payload number of the altered copy.
+func (w *VerifHSWorld) AlterStage1Time(pkt uint64, t uint64) uint64 {
+	orig := w.stage1[pkt-1]
+	const clear = header.Len + 32 + 32 // header, e, s
+	p, err := handshake.UnmarshalPayload(orig[clear:])
+	verifHSMust(err)
+	p.Time = t
+	forged := append([]byte(nil), orig[:clear]...)
+	forged = handshake.MarshalPayload(forged, p)
+	w.stage1 = append(w.stage1, forged)
+	return uint64(len(w.stage1))
+}
+
 func (w *VerifHSWorld) incoming(pkt []byte, v uint64) {
 	var h header.H
 	verifHSMust(h.Parse(pkt))
